@@ -703,6 +703,131 @@ let suite_lock (line : string) : string =
       Printf.sprintf "%s %s" id (String.concat " " res)
   | _ -> failwith "bad lock case"
 
+(* ---------- suite: sched (the concurrency model on Tier-A scripts) ---------- *)
+(* case: <id> <cfg> step ...  with a third field d6fix flag appended to cfg as "...:reuse:d6"
+   (default 1). Steps the model does not cover (scans, snapshots, compaction of tables) print "*". *)
+let suite_sched (line : string) : string =
+  match split_nonempty ' ' line with
+  | id :: cfg :: steps ->
+      let d6 = (match String.split_on_char ':' cfg with [ _; _; _; _; d ] -> d = "1" | _ -> true) in
+      let st = ref c_init in
+      let next_tid = ref 100 in
+      let names : (string * n) list ref = ref [] in
+      let armed : (string * string) list ref = ref [] in
+      let ch take rot = { ch_take = nat_of_int take; ch_rotate = rot } in
+      let at_point (p : pc) (point : string) : bool =
+        match p, point with
+        | RCaptured _, "get:after_unlock" -> true
+        | WBeforeWal _, "write:before_wal" -> true
+        | WLeading (_, _, _, todo, next), "write:after_wal" ->
+            (match p with WLeading (g, base, _, _, _) -> N.eqb next (N.add base (n_of_int 1)) && todo <> [] || (todo = [] && List.concat (List.map snd g) = []) | _ -> false)
+        | WLeading (_, base, _, _, next), "write:between_inserts" -> not (N.eqb next (N.add base (n_of_int 1)))
+        | WLeading (_, _, _, [], _), "write:after_memtable" -> true
+        | FBuilding _, "flush:building" -> true
+        | _ -> false
+      in
+      let finished t = match pc_of !st t with Some (Done _) -> true | None -> true | _ -> false in
+      (* run thread t until it is done, blocked, or (if armed) parked at its point *)
+      let run_thread (name : string) (t : n) (take : int) (rot : bool) =
+        let fuel = ref 10000 in
+        let continue_ = ref true in
+        let first = ref true in
+        while !continue_ && !fuel > 0 do
+          decr fuel;
+          (match pc_of !st t with
+           | Some p when (match List.assoc_opt name !armed with Some pt -> at_point p pt | None -> false) ->
+               armed := List.remove_assoc name !armed;
+               continue_ := false
+           | _ ->
+               (match cstep d6 !st t (ch take (rot && !first)) with
+                | None -> continue_ := false
+                | Some s' -> st := s'; first := false))
+        done
+      in
+      let run_fresh prog take rot =
+        incr next_tid;
+        let t = n_of_int !next_tid in
+        st := spawn !st t prog;
+        run_thread "" t take rot;
+        t
+      in
+      let result t =
+        match pc_of !st t with
+        | Some (Done (Some (Some v))) -> "v" ^ hex_of_bytes v
+        | Some (Done (Some None)) -> "nf"
+        | Some (Done None) -> "ok"
+        | _ -> "stuck"
+      in
+      let prog_of (op : string) : prog option =
+        let body = String.sub op 1 (String.length op - 1) in
+        match op.[0] with
+        | 'P' | 'D' | 'B' -> (match parse_hop op with HWrite b -> Some (PWrite b) | _ -> None)
+        | 'G' -> Some (PGet (parse_bytes body))
+        | _ -> None
+      in
+      let flush () =
+        (* force_memtable_compaction: an empty write that rotates, then the background flush *)
+        ignore (run_fresh (PWrite []) 1 true);
+        ignore (run_fresh PFlush 1 false)
+      in
+      let res =
+        List.map
+          (fun step ->
+            let body = String.sub step 1 (String.length step - 1) in
+            match step.[0] with
+            | 'M' -> (
+                match body.[0] with
+                | 'C' -> flush (); "ok"
+                | _ -> (
+                    match prog_of body with
+                    | Some p -> let t = run_fresh p 1 false in result t
+                    | None -> "*"))
+            | 'A' ->
+                let i = String.index body ':' in
+                armed := (String.sub body 0 i, String.sub body (i + 1) (String.length body - i - 1)) :: !armed;
+                "ok"
+            | 'T' -> (
+                let i = String.index body ':' in
+                let name = String.sub body 0 i and op = String.sub body (i + 1) (String.length body - i - 1) in
+                match op.[0] with
+                | 'C' ->
+                    (* a thread calling compact_range: rotation now, the flush runs on `bg` *)
+                    ignore (run_fresh (PWrite []) 1 true);
+                    incr next_tid;
+                    let t = n_of_int !next_tid in
+                    st := spawn !st t PFlush;
+                    names := ("bg", t) :: (name, t) :: !names;
+                    run_thread "bg" t 1 false;
+                    "ok"
+                | _ -> (
+                    match prog_of op with
+                    | Some p ->
+                        incr next_tid;
+                        let t = n_of_int !next_tid in
+                        st := spawn !st t p;
+                        names := (name, t) :: !names;
+                        run_thread name t 8 false;
+                        "ok"
+                    | None -> "*"))
+            | 'V' -> "*"
+            | 'U' -> (
+                match List.assoc_opt body !names with
+                | Some t -> armed := List.remove_assoc body !armed; run_thread body t 8 false;
+                    (* followers and queued writers behind a released leader *)
+                    List.iter (fun (nm, t') -> if nm <> body then run_thread nm t' 8 false) !names;
+                    "*"
+                | None -> "*")
+            | 'J' -> (
+                match List.assoc_opt body !names with
+                | Some t -> if finished t then result t else (run_thread body t 8 false; result t)
+                | None -> "*")
+            | 'Q' -> "ok"
+            | _ -> "*")
+          steps
+      in
+      Printf.sprintf "%s %s" id (String.concat " " res)
+  | _ -> failwith "bad sched case"
+
 let () =
   let suite = Sys.argv.(1) in
   let f =
@@ -720,6 +845,7 @@ let () =
     | "itercheck" -> suite_itercheck
     | "wspec" -> suite_wspec
     | "lock" -> suite_lock
+    | "sched" -> suite_sched
     | _ -> failwith ("unknown suite " ^ suite)
   in
   try
